@@ -174,6 +174,9 @@ def VPat.crossGraphOk : VPat → Bool
 structure NPat where
   domain : StrPat
   op : StrPat
+  /-- the constructor received `op` as a `str` (true for patterns written with the builder; false
+  for the copies made by `NodePattern.clone`, which pass the `StringConstantPattern` object) -/
+  opIsStr : Bool
   inputs : List (Option VPat)
   attrs : List (String × APat)
   allowOtherAttrs : Bool
@@ -184,6 +187,7 @@ structure NPat where
 
 /-- `NodePattern.op_identifier()` without the (always empty) overload. -/
 def NPat.opId (np : NPat) : Option (String × String) :=
+  if !np.opIsStr then none else
   match np.domain, np.op with
   | .exact d, .exact o => some (d, o)
   | _, _ => none
